@@ -226,6 +226,9 @@ func runC16(s c16Seq) (sig, msg string) {
 			break // the rest is ended by the server shutting down
 		}
 		u := ups[i]
+		if u.markedEnded() {
+			continue // its token expired together with an earlier one's
+		}
 		var inflight chan e4.Result
 		if s.InFlight {
 			inflight = make(chan e4.Result, 1)
@@ -296,6 +299,20 @@ func runC16(s c16Seq) (sig, msg string) {
 			u.mu.Unlock()
 			if at.Before(u.expiry.Add(-5 * time.Millisecond)) {
 				return "closed-before-expiry", fmt.Sprintf("%s: upstream %d closed at %s, token expires %s", desc, i, at.Format("15:04:05.000"), u.expiry.Format("15:04:05.000"))
+			}
+			// other tokens that expire at the same moment end their connections now too
+			for _, x := range ups {
+				if x == u || x.markedEnded() || x.expiry.IsZero() || x.expiry.After(u.expiry.Add(time.Second)) {
+					continue
+				}
+				select {
+				case <-x.closed:
+				case <-time.After(15 * time.Second):
+					return "expired-token-connection-kept", fmt.Sprintf("%s: upstream %s still connected long after its token expired", desc, x.name)
+				}
+				x.setEnded()
+				connected[x.ep]--
+				open--
 			}
 		}
 		u.setEnded()
